@@ -113,10 +113,21 @@ class Ctx:
         self.functions.update(functions)
         results = e1.run_conditions(module, conds, self.tier, seed=self.seed, scale=scale)
         by = {c.fn: c for c in conds}
+        reached = {}
+        for r in results:
+            if not r.twin:
+                reached[r.fn] = reached.get(r.fn, 0) + r.confirmed_paths
+            elif r.verdict == 'counterexample':
+                reached[r.fn] = reached.get(r.fn, 0) + 1
         for r in results:
             c = by[r.fn]
             if r.twin:
-                if r.verdict == 'budget_exhausted':
+                if r.verdict != 'counterexample' and reached.get(r.fn, 0) > 0:
+                    # the twin did not finish a path in its short budget, but the cells of the same condition did complete
+                    # paths that satisfied the precondition and evaluated the postcondition: not vacuous
+                    self.extra.setdefault('twins_inconclusive', []).append(
+                        f'{module}.{r.fn} (twin {r.verdict}; {reached[r.fn]} paths of the condition itself reached the postcondition)')
+                elif r.verdict == 'budget_exhausted':
                     # the twin ran out of its (short) budget before one path completed: not evidence of vacuity
                     self.extra.setdefault('twins_inconclusive', []).append(f'{module}.{r.fn}')
                 elif r.verdict != 'counterexample':
@@ -132,6 +143,12 @@ class Ctx:
             ob = dict(engine='E1/CrossHair', condition=f'{module}.{r.fn}', part=f'{r.part}/{r.nparts}',
                       desc=c.desc, bounds=c.bounds, verdict=r.verdict, paths=r.paths,
                       confirmed_paths=r.confirmed_paths, cpu_s=r.cpu_s)
+            if r.verdict == 'harness_error' and 'Unable to meet precondition' in r.message and reached.get(r.fn, 0) > 0:
+                # every path of this cell was cut off by the per-path / per-condition budget; the precondition is satisfiable
+                # (the twin or another cell of the condition reached the postcondition): budget exhaustion, not vacuity
+                r.verdict = 'budget_exhausted'
+                ob['verdict'] = 'budget_exhausted'
+                ob['note'] = 'no path completed within the budget (CrossHair: "Unable to meet precondition")'
             if r.verdict == 'harness_error':
                 self.harness_errors.append(f'{module}.{r.fn} part {r.part}: {r.message[:500]}')
             if r.verdict == 'counterexample':
